@@ -169,6 +169,7 @@ func runProperty(w *World, p *PropertyDef, known []KnownFinding) (res runResult)
 	func() {
 		defer func() { _ = recover() }()
 		c09Tables(w)
+		helperClosureEdges(w)
 	}()
 	func() {
 		defer func() {
